@@ -24,10 +24,6 @@ impl HeartbeatMachine {
             last_heartbeat_time: Time::new(0, 0),
         }
     }
-    pub fn has_sent_heartbeat(&self) -> bool {
-        self.count > 0
-    }
-
     pub fn is_time_for_heartbeat(&self, now: Time, heartbeat_period: Duration) -> bool {
         now - self.last_heartbeat_time >= heartbeat_period
     }
